@@ -17,13 +17,27 @@ import sys
 import tempfile
 import traceback
 
-from . import refmodel, schemagen as sg
+from . import refmodel, schemagen as sg, wal
 from .schemajson import schema_from_json
 from .simfs import REPO, HarnessError
 
 
-def wal(msg: str) -> None:
-    os.write(2, ("WAL %s\n" % msg).encode())
+class _Sys:
+    """Write-ahead markers around a call into the system under test (see wal.py)."""
+
+    n = 0
+
+    def __init__(self, label: str):
+        self.label = label
+
+    def __enter__(self):
+        _Sys.n += 1
+        self.i = _Sys.n
+        wal.mark("begin %d %s" % (self.i, self.label))
+
+    def __exit__(self, *a):
+        wal.mark("end %d" % self.i)
+        return False
 
 
 class PyCodec:
@@ -196,12 +210,22 @@ class Fleet:
             src = os.path.join(d, "pkt.bitproto")
             with open(src, "w") as f:
                 f.write(s.text())
-            proto = parse(src)
-            render(proto, "py", outdir=d)
-            self.py[i] = PyCodec(os.path.join(d, "pkt_bp.py"), "v%d" % i)
+            # (generated files are taken from what render() returns: no assumption about names)
+            with _Sys("compile v%d py" % i):
+                proto = parse(src)
+                outs = [os.path.join(d, os.path.basename(p)) for p in render(proto, "py", outdir=d)]
+            pys = [p for p in outs if p.endswith(".py")]
+            if len(pys) != 1:
+                raise HarnessError("the Python renderer returned %r" % (outs,))
+            self.py[i] = PyCodec(pys[0], "v%d" % i)
             if need_c:
-                render(proto, "c", outdir=d)
-                so = cbuild.build_version(self.work, os.path.join(d, "pkt_bp.c"), os.path.join(d, "pkt_bp.h"), rt, "v%d" % i, self.roots[i])
+                with _Sys("compile v%d c" % i):
+                    outs = [os.path.join(d, os.path.basename(p)) for p in render(proto, "c", outdir=d)]
+                cs = [p for p in outs if p.endswith(".c")]
+                hs = [p for p in outs if p.endswith(".h")]
+                if len(cs) != 1 or len(hs) != 1:
+                    raise HarnessError("the C renderer returned %r" % (outs,))
+                so = cbuild.build_version(self.work, cs[0], hs[0], rt, "v%d" % i, self.roots[i])
                 self.c[i] = cbuild.CCodec(so, self.roots[i])
 
     # ------------------------------------------------------------- codecs
@@ -284,7 +308,8 @@ class Fleet:
                 n = nodes[ev["node"]]
                 ver = n["version"]
                 value = refmodel.restrict(ev["value"], self.roots[newest], self.roots[ver])
-                data = self.encode_at(n["runtime"], ver, value)
+                with _Sys("encode %s v%d" % (n["runtime"], ver)):
+                    data = self.encode_at(n["runtime"], ver, value)
                 if n["runtime"] != "ref" and data != refmodel.ref_encode(self.roots[ver], value):
                     self.stats["encoder_vs_reference_mismatch"] += 1
                 msg = {"bytes": data, "sver": ver, "origin": ver, "value": value, "hops": 0, "src_rt": n["runtime"], "sent_at": t, "relay_lat": ev.get("relay_lat", [10])}
@@ -312,7 +337,8 @@ class Fleet:
                 self.stats["deliveries"] += 1
                 rt = "%s->%s" % (msg["src_rt"], n["runtime"])
                 self.stats["by_runtime"][rt] = self.stats["by_runtime"].get(rt, 0) + 1
-                expected, sig, detail = self.receive(n, msg)
+                with _Sys("decode %s v%d<-v%d" % (n["runtime"], r, s)):
+                    expected, sig, detail = self.receive(n, msg)
                 if msg["hops"] > 0:
                     self.stats["multi_hop"] += 1
                 vh = hash_value(msg["value"])
@@ -359,17 +385,20 @@ class Fleet:
                             kind, obj = self.last_decoded
                             if kind == "py":
                                 try:
-                                    data = bytes(obj.encode())
+                                    with _Sys("relay-encode py v%d" % r):
+                                        data = bytes(obj.encode())
                                 except Exception as e:  # noqa
                                     self.violations.append({"sig": "py-relay-encode-exception:%s" % type(e).__name__, "detail": str(e)[:200], "s": s, "r": r, "runtime": "py", "src_runtime": msg["src_rt"], "t": t, "hops": msg["hops"], "delivery": self.stats["deliveries"], "value": msg["value"]})
                                     continue
                             else:
-                                rc, data, ok = self.c[r].encode(obj, self.nbytes(r))
+                                with _Sys("relay-encode c v%d" % r):
+                                    rc, data, ok = self.c[r].encode(obj, self.nbytes(r))
                                 if rc != 0 or not ok:
                                     raise HarnessError("C encoder crashed or overran its buffer on a relay (signal %d)" % rc)
                             self.stats["relay_same_object"] = self.stats.get("relay_same_object", 0) + 1
                         else:
-                            data = self.encode_at(n["runtime"], r, expected)
+                            with _Sys("encode %s v%d" % (n["runtime"], r)):
+                                data = self.encode_at(n["runtime"], r, expected)
                         fwd = {"bytes": data, "sver": r, "origin": max(msg.get("origin", s), s), "value": expected, "hops": msg["hops"] + 1, "src_rt": n["runtime"], "sent_at": t, "relay_lat": msg["relay_lat"]}
                         for j, m in enumerate(nxt[:2]):
                             lat = msg["relay_lat"][(msg["hops"] * 2 + j) % len(msg["relay_lat"])]
